@@ -504,3 +504,76 @@ CONTRACTS += [
                    "guarantee: no unchecked read is passed on.  Interleavings of the WRITE steps (truncate / write) of two calls are not decided.",
              props=["C15"], symbolic_only=True),
 ]
+
+
+# =============================================================================== _get_service_urls (C14): the URL the profile advertises, as it is
+from ofxtools.models import BANKMSGSET, CREDITCARDMSGSET, INVSTMTMSGSET
+
+
+class ProfileSetsArg(Arg):
+    """the message sets a profile lists: any of bank / credit card / investment present or not, in one of two orders, each with
+    an opaque URL and a symbolic CLOSINGAVAIL"""
+
+    def __init__(self, order, name="sets"):
+        self.order = order; self.name = name
+
+    def make(self, it):
+        out = []
+        for cls in self.order:
+            n = cls.__name__
+            out.append((z3.Bool(f"profile_lists_{n}"),
+                        SObj(cls, {"__items__": [], "url": SVal(str, z3.Const(f"url_{n}", V)), "closingavail": SBool(z3.Bool(f"closingavail_{n}"))}, fresh=False, label=n)))
+        return out, []
+
+
+def call_service_urls(it, fn, a):
+    self, sets = a
+    listed = [s for g, s in sets if it.branch(g)]
+    it.models[OFXClient.request_profile] = lambda it_, args, kw: (log(it_, "request_profile", dict(kw)), Marker("profile-bytes"))[1]
+
+    class AP(Abstract):
+        def p_getattr(self_, it_, name):
+            if name == "parse":
+                return lambda buf: None
+            if name == "convert":
+                return lambda: Marker("ofx", profmsgsrsv1=[Marker("proftrnrs", msgsetlist=list(listed))])
+            raise C.Unsupported(f"parser.{name}")
+    it.models[CL.OFXTree] = lambda it_, args, kw: AP()
+    r = it.call(OFXClient._get_service_urls, [self], {})
+    return (r, listed)
+
+
+def service_urls_ok(result):
+    raise RuntimeError("symbolic only")
+
+
+def _service_urls_ok(it, a, kw):
+    (urls, listed), = a
+    if not isinstance(urls, dict):
+        return False
+    want = {}
+    first = {}
+    for s in listed:
+        first.setdefault(s.cls, s)
+    for s in listed:
+        rq = {BANKMSGSET: CL.StmtRq, CREDITCARDMSGSET: CL.CcStmtRq, INVSTMTMSGSET: CL.InvStmtRq}[s.cls]
+        want[rq] = s.fields["url"]           # a later entry of the same kind wins (dict comprehension)
+    for cls, rq in ((BANKMSGSET, CL.StmtEndRq), (CREDITCARDMSGSET, CL.CcStmtEndRq)):
+        if cls in first and it.branch(first[cls].fields["closingavail"].e):
+            want[rq] = first[cls].fields["url"]
+    if set(urls) != set(want):
+        return False
+    return all(urls[k] is want[k] or (isinstance(urls[k], SVal) and urls[k].e.eq(want[k].e)) for k in want)
+
+
+service_urls_ok._pyvc_model = _service_urls_ok
+service_urls_ok._pyvc_always = True
+import contracts.spec.client as _spc2
+_spc2.service_urls_ok = service_urls_ok
+
+for order in ([BANKMSGSET, CREDITCARDMSGSET, INVSTMTMSGSET], [INVSTMTMSGSET, CREDITCARDMSGSET, BANKMSGSET]):
+    CONTRACTS.append(Contract("ofxtools.Client:OFXClient._get_service_urls", args=[ClientArg(), ProfileSetsArg(order)], call=call_service_urls,
+                              ensures=[("the-advertised-URL-unchanged-per-kind-of-request", "spec.client.service_urls_ok(result)"),
+                                       ("one-profile-request", "len(spec.client.calls(ghost, 'request_profile')) == 1")],
+                              notes=f"message sets {[c.__name__ for c in order]} each listed or not; URLs opaque texts: returned as they are (no rewriting), closing-statement requests mapped iff CLOSINGAVAIL",
+                              props=["C14"], symbolic_only=True))
